@@ -47,6 +47,7 @@ class Engine:
         self.deadline = None
         self.cut_depth = None
         self.path_cap = None
+        self._uf = False
         self.frontier = []
         self.funcs = {}
 
@@ -108,7 +109,12 @@ class Engine:
         if op == 'not': return z3.Not(self.zmemo[x.args[0].id])
         if op == 'and': return z3.And([self.zmemo[a.id] for a in x.args])
         if op == 'or': return z3.Or([self.zmemo[a.id] for a in x.args])
-        if op == 'rdiv': return self._zc(x.args[0], True) / self._zc(x.args[1], True)
+        if op == 'rdiv':
+            if self._uf:
+                f = self.funcs.get('recip!uf')
+                if f is None: f = self.funcs['recip!uf'] = z3.Function('recip_uf', z3.RealSort(), z3.RealSort())
+                return self._zc(x.args[0], True) * f(self._zc(x.args[1], True))
+            return self._zc(x.args[0], True) / self._zc(x.args[1], True)
         if op == 'mod': return self._zc(x.args[0], False) % z3.IntVal(int(x.args[1]))
         if op == 'idiv': return self._zc(x.args[0], False) / z3.IntVal(int(x.args[1]))
         if op == 'floor': return z3.ToInt(self._zc(x.args[0], True))
@@ -130,6 +136,24 @@ class Engine:
         t = time.time(); self.stats['queries'] += 1
         r = self.s.check(*[self.z(c) for c in conds])
         self.stats['solver_s'] += time.time() - t
+        return r
+
+    def check_uf_division(self, conds):
+        """over-approximation: x / y read as x * recip(y) with recip uninterpreted.  An `unsat` answer is valid for real
+        division too (every real model is a model of the relaxed query); anything else is ignored."""
+        self._tick()
+        t = time.time(); self.stats['queries'] += 1
+        saved = self.zmemo, self._uf
+        self.zmemo = {}; self._uf = True
+        try:
+            s2 = z3.Solver(); s2.set('timeout', min(self.timeout_ms, 10000))
+            for c in self.pc: s2.add(self.z(c))
+            for c in conds: s2.add(self.z(c))
+            r = s2.check()
+        finally:
+            self.zmemo, self._uf = saved
+        self.stats['solver_s'] += time.time() - t
+        if r == z3.unsat: self.stats['uf_division_proofs'] = self.stats.get('uf_division_proofs', 0) + 1
         return r
 
     def check_fresh(self, conds):
@@ -325,7 +349,7 @@ class Engine:
         if batch and len(todo) > 1 and all(isinstance(c, T) for _, c, _ in todo):
             allc = ir.land(*[c for _, c, _ in todo])
             if allc is not False:
-                r = self.check(ir.lnot(allc))
+                r = z3.unsat if (_has_div(allc) and self.check_uf_division([ir.lnot(allc)]) == z3.unsat) else self.check(ir.lnot(allc))
                 if r == z3.unsat:
                     self.stats['discharged'] += len(todo); return
         for label, c, info in todo:
@@ -333,7 +357,9 @@ class Engine:
                 r = z3.sat; neg = []
             else:
                 neg = [ir.lnot(c)]
-                r = self.check(*neg)
+                r = None
+                if _has_div(c) and self.check_uf_division(neg) == z3.unsat: r = z3.unsat
+                if r is None: r = self.check(*neg)
                 if r == z3.unknown: r = self.check_fresh(neg)
             if r == z3.unsat: self.stats['discharged'] += 1
             elif r == z3.sat:
@@ -373,6 +399,16 @@ class Engine:
             if self.stats['paths'] + self.stats['pruned'] >= self.max_paths: raise Inconclusive('max paths')
             if self.path_cap is not None and self.stats['paths'] >= self.path_cap:
                 self.stats['path_cap_reached'] = 1; break
+
+
+_DIVMEMO = {}
+def _has_div(t):
+    if not isinstance(t, T): return False
+    r = _DIVMEMO.get(t.id)
+    if r is None:
+        r = t.op == 'rdiv' or any(_has_div(a) for a in t.args)
+        _DIVMEMO[t.id] = r
+    return r
 
 
 def _zfrac(a):
